@@ -95,6 +95,19 @@ func (st *State) fArith(op token.Token, a, b *Term) *Term {
 	if st.h.mode == ModeORD {
 		panic(engineGap("arithmetic on an order-only (ORD) symbolic float; the harness must use mode R, RR or FP"))
 	}
+	// an infinite constant combined with a (finite) real-valued symbolic float
+	if infA, infB := a.sort == SF64 && a.isConst() && math.IsInf(a.f, 0), b.sort == SF64 && b.isConst() && math.IsInf(b.f, 0); infA != infB {
+		switch {
+		case op == token.ADD && infA, op == token.SUB && infA:
+			return a
+		case op == token.ADD && infB:
+			return b
+		case op == token.SUB && infB:
+			return ts.F64(-b.f)
+		case op == token.QUO && infB:
+			return ts.F64(0) // finite / Inf (the sign of the zero is not tracked in the real reading)
+		}
+	}
 	ra, rb := st.toReal(a), st.toReal(b)
 	switch op {
 	case token.ADD:
